@@ -32,7 +32,7 @@ NOESC = "stack-noescape"                 # the address goes to the erase functio
 HUGE_LO, HUGE_HI = 4096, 12288           # 'huge' non-escaping targets: block-size thresholds inside the library's set primitives
 SCAN_BYTES = 32768                       # stack bytes below the caller's pad that the spy copies and scans (spy.c C18_SCAN)
 SOLO_PROGRAMS = {"quick": 1, "thorough": 4}   # single-call-site programs per tier (see gen_program(solo=True))
-NOESC_MIN = 16                           # the scan recognises runs of >= 8 pattern bytes; targets are at least one 16-byte block
+NOESC_MIN = 16                           # the scan recognises runs of >= 6 pattern bytes; targets are at least one 16-byte block
 SHAPES = ["direct", "helper", "struct"]
 
 # library sources compiled into / linked with every program (relative to <root>/src)
@@ -130,6 +130,10 @@ def gen_program(rng, slack, pi=0, solo=False):
             count = max(1, nbytes // unit)
             nbytes = count * unit
             align = rng.randrange(0, 16, unit)
+            if solo and unit == 1:
+                # single-call-site programs: a head of 6 or 7 bytes in front of the first 8-byte boundary -- the shortest
+                # piece of a target the stack scan (runs of >= 6) can still see if a word-wise eraser treats it differently
+                align = (align & 8) | (1 + (align & 1))
             lead = (32 if st == "heap" else 16) + align
             shape = rng.choice(SHAPES)
             extra = rng.choice([0, 0, 0] + list(range(1, 9)))
@@ -379,7 +383,7 @@ def judge(c, vs, res):
         elif v["storage"] == NOESC and r["bad"] > 0:
             verdict["cls"] = "violation"
             verdict["key"] = "%s:%s:not-erased:%s" % (PROP, v["fn"], v["storage"])
-            verdict["detail"] = ("%d bytes of the secret pattern (runs of >= 8 consecutive pattern bytes, first run %d bytes below the "
+            verdict["detail"] = ("%d bytes of the secret pattern (runs of >= 6 consecutive pattern bytes, first run %d bytes below the "
                                  "caller's frame) are still in the dead stack frame after %s returned 0; the %d-byte local buffer (object "
                                  "offset %d) was filled and read at run time, its address was passed to %s only; found by a scan of the "
                                  "%d bytes below the caller, config %s; control memset residual=%d" %
@@ -613,7 +617,7 @@ def main():
               "(storage stack/heap/static: the buffer address is handed to the non-LTO spy TU, which fills it and reads the n bytes back "
               "after the victim died) and NON-ESCAPING (storage stack-noescape: a local array the victim fills itself from a run-time "
               "16-byte pattern and reads back, whose address is passed to the erase function only; the spy finds the dead frame by "
-              "scanning the 32768 stack bytes below the caller for runs of >= 8 pattern bytes; 4 of them per program have targets of 4096..12288 bytes). For both kinds a case is NON-TRIVIAL iff "
+              "scanning the 32768 stack bytes below the caller for runs of >= 6 pattern bytes; 4 of them per program have targets of 4096..12288 bytes). For both kinds a case is NON-TRIVIAL iff "
               "the config optimises (>= -O1) and the victim's plain-memset twin in the same binary was observed with residual secret "
               "bytes, i.e. the compiler demonstrably removes a non-secure erase there (for non-escaping victims additionally both twins' "
               "read-back checksums must have arrived, i.e. the buffer was really filled and used); "
@@ -645,7 +649,7 @@ def main():
         "x86-64 Linux, glibc malloc (a freed tcache/unsorted chunk keeps its bytes beyond the first 32), gcc 12 and clang 14 only",
         "'any optimisation level' is the matrix {gcc,clang} x {-O0,-O1,-O2,-O3,-Os} x {separately compiled objects, library sources compiled into the program with -flto}",
         "the spy TU is compiled -O0 without LTO and copies the dead buffer immediately after the victim returns, with no intervening call",
-        "non-escaping stack victims: the dead frame is found without its address, by copying the 32768 bytes directly below a 64 KiB alloca pad of the (-O0, non-LTO) caller right after the victim returned (frames and red zone of the victim lie there) and counting runs of >= 8 consecutive bytes of that victim's own 16-byte pattern (16 distinct non-zero bytes, fresh per victim, kept in volatile static storage only); erasures that leave fewer than 8 consecutive pattern bytes are invisible to this channel (the escaping victims compare every byte), as are copies the compiler keeps in registers",
+        "non-escaping stack victims: the dead frame is found without its address, by copying the 32768 bytes directly below a 64 KiB alloca pad of the (-O0, non-LTO) caller right after the victim returned (frames and red zone of the victim lie there) and counting runs of >= 6 consecutive bytes of that victim's own 16-byte pattern (16 distinct non-zero bytes, fresh per victim, kept in volatile static storage only); erasures that leave fewer than 6 consecutive pattern bytes are invisible to this channel (the escaping victims compare every byte), as are copies the compiler keeps in registers",
         "file-static victims: the address escapes to the spy, so compilers keep even a plain memset; those cases are checked but counted as void controls, not as non-trivial",
         "memzero_s delegates to glibc explicit_bzero when HAVE_EXPLICIT_BZERO is configured; that libc code is outside LTO",
     ]
